@@ -62,7 +62,12 @@ def gen_configs(rnd, n):
             b = sum(dz[:c])
             layers.append(b - prev)
             prev = b
-        layers.append(400)
+        lastcut = cuts[-1] if cuts else 0
+        if rnd.random() < 0.6 or len(dz) - lastcut < 2:
+            layers.append(400)
+        else:        # sometimes the declared layers stop above the bottom of the grid (on a compartment boundary)
+            stop = rnd.randrange(lastcut + 1, len(dz))
+            layers.append(sum(dz[lastcut:stop]))
         zmax = rnd.choice([30, 50, 100, 130, 150, 170, 180, 200, 230, 300])
         reach = sum(d if d >= 25 else (d + 10 if d + 10 >= 25 else (d + 20 if d + 20 >= 25 else d + 30)) for d in dz)
         if reach <= zmax + 10:        # strictly deeper than Zmax + 10 cm: at the tie the code's floating-point loop test may demand one more step
@@ -92,6 +97,10 @@ def doc_scenarios(tier, seed):
             scs.append(S(rnd.choice(["Wheat", "Cotton", "Potato"]), seed=1, soil_spec=spec, iwc=iw))
         scs.append(S("Sorghum", seed=1, soil_spec=spec, iwc={"wc_type": "Num", "method": "Depth", "depth_layer": [0.1, 0.45, 1.0, 1.7], "value": [0.12, 0.3, 0.22, 0.35]}))
         scs.append(S("Barley", seed=1, soil_spec=spec, iwc={"wc_type": "Num", "value": [0.2] * nl, "depth_layer": list(range(1, nl + 1))}))
+    # layers declared only for the upper part of the compartment grid
+    for crop in ("Wheat", "Maize", "Tef"):
+        scs.append(S(crop, seed=1, soil_spec=L.LAYERED_SOILS["shallow_layers"], iwc=rnd.choice(L.iwc_variants(2))))
+    scs.append(S("Tomato", seed=1, soil_spec={"type": "Paddy", "kw": {"dz": [0.1] * 25}}, iwc={"value": ["FC", "FC"], "depth_layer": [1, 2]}))
     # texture-based layers in the pedotransfer's calibrated range
     for i in range(40 if tier == "thorough" else 6):
         sand, clay = rnd.uniform(5, 80), rnd.uniform(5, 55)
